@@ -78,7 +78,11 @@ def pat_bindings(p):
         out.append((p['id'], p['name']))
         if 'sub' in p:
             out += pat_bindings(p['sub'])
-    elif k in ('ptuplestruct', 'ptuple', 'por', 'pslice'):
+    elif k == 'por':
+        # every alternative binds the same names: those of the first one
+        if p['pats']:
+            out += pat_bindings(p['pats'][0])
+    elif k in ('ptuplestruct', 'ptuple', 'pslice'):
         for x in list(p['pats']) + list(p.get('after', [])):
             out += pat_bindings(x)
     elif k == 'pstruct':
